@@ -39,13 +39,13 @@ func run(c *core.Ctx) {
 	wg.Add(1)
 	go func() {
 		defer wg.Done()
-		kit.ModelCheck(c, "TypedValues.tla", mc, tlc.Options{Workers: 12, Timeout: 20 * time.Minute})
+		kit.ModelCheck(c, "TypedValues.tla", mc, tlc.Options{Workers: 12, Timeout: 45 * time.Minute})
 	}()
 	for _, g := range gens {
 		wg.Add(1)
 		go func(g *genJob) {
 			defer wg.Done()
-			g.out = kit.Dedupe(kit.Generate(c, "Gen_TypedValues.tla", g.cfg, tlc.Options{}))
+			g.out = kit.Dedupe(kit.Generate(c, "Gen_TypedValues.tla", g.cfg, tlc.Options{Timeout: 45 * time.Minute}))
 		}(g)
 	}
 	wg.Wait()
